@@ -2,15 +2,44 @@ package dagaz
 
 import (
 	"context"
+	"math"
 
 	"github.com/aukilabs/go-tooling/pkg/errors"
 	"github.com/aukilabs/hagall-common/messages/dagazpb"
+	"github.com/aukilabs/hagall-common/messages/hagallpb"
 	hwebsocket "github.com/aukilabs/hagall-common/websocket"
 	"github.com/aukilabs/hagall/models"
 	"google.golang.org/protobuf/types/known/timestamppb"
 )
 
 // TODO(jhenriques): Can we remove timestamps from protobuf messages? Dagaz does not use them...
+
+// The largest coordinate, in metres, the module accepts in samples and
+// queries. The grid allocates cells for the whole bounding box of what it is
+// given, so coordinates have to be bounded (and finite) before they reach it.
+const maxCoordinate = 1024
+
+func validCoordinate(v float32) bool {
+	return !math.IsNaN(float64(v)) && v >= -maxCoordinate && v <= maxCoordinate
+}
+
+func validPoint(p *dagazpb.Point) bool {
+	return p != nil && validCoordinate(p.X) && validCoordinate(p.Y) && validCoordinate(p.Z)
+}
+
+func validQuad(q *dagazpb.Quad) bool {
+	return q != nil && validPoint(q.Center) && validPoint(q.Extents) &&
+		q.Extents.X >= 0 && q.Extents.Y >= 0 && q.Extents.Z >= 0
+}
+
+func badRequest(respond hwebsocket.ResponseSender, requestID uint32) {
+	respond.Send(&hagallpb.ErrorResponse{
+		Type:      hagallpb.MsgType_MSG_TYPE_ERROR_RESPONSE,
+		Timestamp: timestamppb.Now(),
+		RequestId: requestID,
+		Code:      hagallpb.ErrorCode_ERROR_CODE_BAD_REQUEST,
+	})
+}
 
 type Module struct {
 	currentSession     *models.Session
@@ -73,6 +102,9 @@ func (m *Module) HandleDagazQuadSample(ctx context.Context, msg hwebsocket.Msg) 
 	}
 
 	for _, newQuad := range newQuadSample.Samples {
+		if !validQuad(newQuad) {
+			continue
+		}
 		quad := NewQuadFromProtobuf(newQuad)
 		m.state.SpatialPartition.InsertQuad(quad)
 	}
@@ -91,6 +123,11 @@ func (m *Module) HandleDagazGetGroundPlane(ctx context.Context, respond hwebsock
 		return errors.New("session not joined").
 			WithType(hwebsocket.ErrTypeSessionNotJoined).
 			WithTag("msg_type", msg.Type)
+	}
+
+	if req.Ray == nil || !validPoint(req.Ray.From) || !validPoint(req.Ray.To) {
+		badRequest(respond, req.RequestId)
+		return nil
 	}
 
 	ray := NewRayFromProtobuf(req.Ray)
@@ -126,6 +163,11 @@ func (m *Module) HandleDagazGetRegion(ctx context.Context, respond hwebsocket.Re
 		return errors.New("session not joined").
 			WithType(hwebsocket.ErrTypeSessionNotJoined).
 			WithTag("msg_type", msg.Type)
+	}
+
+	if !validPoint(req.Min) || !validPoint(req.Max) {
+		badRequest(respond, req.RequestId)
+		return nil
 	}
 
 	regionQuads := m.state.SpatialPartition.GetRegion(NewVector3fFromProtobuf(req.Min), NewVector3fFromProtobuf(req.Max))
